@@ -84,6 +84,11 @@ std::string normalisePath(const std::string &p);
 std::string hrefBetween(const std::string &fromDir, const std::string &toPath);
 Graph generateGraph(sim::Rng &rng, const GraphParams &gp);
 
+// The enumerated family of small graphs (2-3 files): every combination of directory layout, what the root imports,
+// what the imported entity is made of, and how encapsulation crosses the import.  enumeratedGraphCount() templates.
+long enumeratedGraphCount();
+Graph enumeratedGraph(long index);
+
 // Offsets into a rendered document at which truncation is interesting.
 struct Offsets
 {
